@@ -1612,6 +1612,32 @@ impl Shard {
                     return;
                 }
                 match e {
+                    ReadErr::Timeout(ref got) if !reused && !may_refuse => {
+                        // bounded progress: the same server must answer a minimal complete
+                        // handshake on a fresh connection right now; if it does, only THIS
+                        // handshake (what came with it) is left unanswered
+                        self.stalls += 1;
+                        let control = self.probe(&[b"Upgrade".to_vec()], &[b"websocket".to_vec()]);
+                        if control == Some(101) {
+                            self.rep.eval(class);
+                            self.rep.violate(
+                                format!(
+                                    "C20:complete-handshake-not-answered:{}",
+                                    match early_mode {
+                                        Early::None => "no-early-bytes",
+                                        Early::All => "payload-coalesced-with-handshake",
+                                        Early::Split => "payload-partly-with-handshake",
+                                    }
+                                ),
+                                json!({"case": w, "watchdog_s": self.wd.as_secs(), "bytes_received_instead": esc(&got[..got.len().min(200)]),
+                                       "control": "a minimal complete handshake on a fresh connection was answered 101 meanwhile"}),
+                            );
+                            // a verdict exists: the remaining cases need not wait as long
+                            self.wd = Duration::from_secs(5);
+                        } else {
+                            self.rep.inconclusive("handshake-read:timeout (control handshake not answered either)");
+                        }
+                    }
                     ReadErr::Timeout(_) | ReadErr::Io(_) => {
                         self.rep.inconclusive(&format!("handshake-read:{}", readerr_kind(&e)));
                     }
@@ -1990,7 +2016,7 @@ pub fn run_shard(seed: u64, shard: u64, quick: bool, cases: u64, herd_k: usize) 
         srv: None,
         expect: HashMap::new(),
         served: 0,
-        wd: Duration::from_secs(60),
+        wd: Duration::from_secs(30),
         wd_data: Duration::from_secs(60),
         stalls: 0,
     };
